@@ -15,6 +15,13 @@
   4-deep FIFO, `ponderHit` 1-deep, `stop`/`searchFin` only ever closed.  `close` of a closed channel,
   send on a closed channel and a negative WaitGroup counter lead to `panic := true`.
 
+  Outside the model (named so that a reader knows): the contents of lines and of messages (only
+  their class matters to the skeleton), writes to `d.err`, a malformed `go` (`go wtime` without a
+  value returns from handleGo before any channel is made and prints no `bestmove`: not a conforming
+  line), the difference between `firstWord` (space/tab) and `strings.Fields` (Unicode space) on
+  exotic whitespace, the Go scheduler and memory model (the race detector run of the harness
+  supports, but is not part of, the proof).
+
   One transition = one `Tr` constructor; `fire t s = some s'` iff `t` is enabled in `s` and leads to
   `s'`.  Core Lean only (the trace acceptor `Drv/Uci.lean` executes `fire`).
 -/
